@@ -1,5 +1,10 @@
 #!/bin/sh
 # rebuild /repo/_build (l2m is broken upstream: keep going) and run the 45-test baseline
 cd /repo && cmake --build _build -j16 -- -k 0 > /var/tmp/build.log 2>&1
+# any compile error outside the (upstream-broken) llvm2mir target means stale binaries: report it
+if grep -E "error:" /var/tmp/build.log | grep -v "llvm2mir" | grep -q .; then
+  echo "BUILD FAILED:"; grep -E "error:" /var/tmp/build.log | grep -v llvm2mir | head -5
+  exit 1
+fi
 ctest --test-dir _build -j8 --timeout 900 > /var/tmp/ctest.log 2>&1
 grep -E "tests passed|tests failed" /var/tmp/ctest.log
